@@ -7,7 +7,7 @@ from .lib import cz, cbool, coq_mismatches
 LEVEL = "proof"
 META = {
     "category": "proof",
-    "text": "Coq theorems over an executable model of starlark/int.go written once over the accessor interface of the Int union and instantiated with both representations (int32-in-address-space / struct union, and the all-big.Int fallback): every operator (+ - * // % & | ^ ~ << >> comparisons, Int64/AsInt32/Sign) equals the Z operation for all operands of any magnitude and returns a canonical value, the floored division law is derived from the code's truncated quotient/remainder plus correction, range()/len/index/membership/equality/iteration/enumerate as computed in Go int64/uint64 with explicit wrap equal the mathematical sequence or fail, float->int truncation, math.floor/ceil and int/float comparison are exact on every binary64 value (Coq SpecFloat datatype, the one underlying Flocq's binary_float), int(string, base) and printing round-trip over Z. The hand-written model is tied to /repo on every run: the Go harness runs the real operators and built-ins in both representations on the ordered product of the boundary pool of the property's quantifier plus random magnitudes to 2^200 and the float pool, checks every observation against an independent math/big oracle, and a Coq-sized sample is evaluated inside Coq against the model (correspondence) and the specification (oracle).",
+    "text": "Coq theorems over an executable model of starlark/int.go written once over the accessor interface of the Int union and instantiated with both representations (int32-in-address-space / struct union, and the all-big.Int fallback): every operator (+ - * // % & | ^ ~ << >> comparisons, Int64/AsInt32/Sign) equals the Z operation for all operands of any magnitude and returns a canonical value, the floored division law is derived from the code's truncated quotient/remainder plus correction, range()/len/index/membership/equality/iteration/enumerate as computed in Go int64/uint64 with explicit wrap equal the mathematical sequence or fail, float->int truncation, math.floor/ceil and int/float comparison are exact on every binary64 value (Coq SpecFloat datatype, the one underlying Flocq's binary_float), int->float conversion (Int.Float / finiteFloat, every path) returns for every integer of any magnitude the nearest binary64 value with ties to even, or the infinity exactly from the IEEE overflow threshold 2^1024-2^970 on (int_to_float_nearest_even: the model's mantissa-extraction / round-bit / sticky-bit rounding function is proved against an independent nearest-value specification over all of Z, which is also proved to determine the result uniquely), int(string, base) and printing round-trip over Z. The hand-written model is tied to /repo on every run: the Go harness runs the real operators and built-ins in both representations on the ordered product of the boundary pool of the property's quantifier plus random magnitudes to 2^200 and the float pool, checks every observation against an independent math/big oracle, and a Coq-sized sample is evaluated inside Coq against the model (correspondence) and the specification (oracle).",
     "note": "Trusted: Coq kernel + vm_compute; the Go harness and its math/big oracle; math/big, strconv and hardware float conversion/arithmetic are oracles (modelled by Z / exact dyadic rationals / SpecFloat operations). Slicing a range whose arithmetic exceeds int64 and math.round(int) are recorded known findings.",
     "technique": "Coq proof over executable model + differential correspondence (vm_compute) + independent math/big and Spec.v oracles, both Int representations",
 }
